@@ -19,7 +19,15 @@ claim("C15", "error-discipline dataflow at dependency call sites (failure-region
       "from the failure edge carries a non-nil error, no terminator is triggered by it, short writes are checked, and mutations/writes sit behind the success edge of signing. "
       "It covers all fault positions at once but only the error-handling shape, not executed behaviour.", "DESIGN.md §4 C15")
 
+claim("C02", "cut-set analysis on the CFG of the verification chain: every path to an accepting return must cross evidence edges, with facts inherited through callee results (value-flow slices for the role constraints)",
+      "Decides that PECOFFBinary.Verify / Authenticode.Verify report success only behind: image digest == digest in the signed content (SHA-256, algorithm OID checked), signer issuer+serial == the caller's certificate, "
+      "CheckSignature(SHA256WithRSA) by the caller's certificate over the re-encoded signed attributes, and messageDigest == SHA-256(encapsulated content); per loop iteration, and with the signature parsed from the image's own table. "
+      "Correctness of the hashes, RSA, DER parsing and of the digest itself (C01) is not decided.", "DESIGN.md §4 C02")
+claim("C04", "cut-set analysis on the CFG of (*PKCS7).Verify and its helpers with inherited callee facts; nil-optional dataflow for absent signed attributes",
+      "Decides that the three PKCS#7 verification entry points accept only behind issuer+serial identity with the caller's certificate, a valid RSA-SHA256 CheckSignature by that certificate over the attributes encoder's output, "
+      "and the messageDigest/content binding (or a detached blob), all applied to the same signer entry. DER strictness and equality of re-encoded and signed attribute bytes (C16) are not decided.", "DESIGN.md §4 C04")
+
 NA["C16"] = ("acceptance of third-party signatures depends on the bytes other tools emit at run time (attribute order/encoding "
              "chosen by OpenSSL/sbsign); the source holds no representation of them, so no structural condition beyond C04/C13 exists to check statically")
-for _i in ["C01","C02","C03","C04","C05","C06","C07","C08","C09","C10","C17","C18","C19"]:
+for _i in ["C01","C03","C05","C06","C07","C08","C09","C10","C17","C18","C19"]:
     NA.setdefault(_i, "rule set for this property not built yet in this round (see DESIGN.md Appendix C); no static verdict is claimed")
